@@ -11,6 +11,9 @@ using namespace wc;
 #ifndef VK_ACK_VARIANTS
 #define VK_ACK_VARIANTS 6
 #endif
+#ifndef VK_RM
+#define VK_RM 0             // Receive Maximum announced by the broker (0: none)
+#endif
 #ifndef VK_MODE      // 1: C01, 2: C02, 3: C03, 6: C06
 #define VK_MODE 1
 #endif
@@ -140,16 +143,20 @@ struct X {
   void ev_reconnect() {
     if (w.connected()) {
       if (nreconn >= 1) vk_assume(0);
-      nreconn++; w.drop_connection(); vk::drain(); for (int q = 0; q < VK_REQS; q++) early_req[q] = false;
+      nreconn++;
+      // a write in progress fails, or succeeds locally while its bytes are lost with the connection
+      if (auto* ps = vk::pending_write()) if (!ps->delivered_early && vk_choose(2)) { w.lose_write(ps); vk::drain(); for (int q = 0; q < nreq; q++) lost_tx[q] = true; vk_reach("write-lost-in-flight"); }
+      w.drop_connection(); vk::drain(); for (int q = 0; q < VK_REQS; q++) early_req[q] = false;
     } else if (!w.attempt_in_progress()) vk_assume(0);      // the client itself left the connection (e.g. after DISCONNECT 0x81) and is reconnecting
     int before = w.npk;
     bool ok = w.establish(); vk_assert(ok, "the client reconnects after a connection loss");
-    w.send_connack(true, 0, nullptr, 0); w.feed_all(); vk::drain();
+    static const uint8_t rm_props[3] = {0x21, 0, VK_RM};
+    w.send_connack(true, 0, VK_RM ? rm_props : nullptr, VK_RM ? 3 : 0); w.feed_all(); vk::drain();
     on_new_packets(before);
     vk_reach("reconnected");
   }
   // ---- wire monitors (C03: retransmissions)
-  bool early_mode = false; bool early_req[VK_REQS] = {};
+  bool early_mode = false; bool early_req[VK_REQS] = {}; bool lost_tx[VK_REQS] = {};
   void on_new_packets(int from) {
     for (int i = from; i < w.npk; i++) {
       const pkt_rec& r = w.pk[i]; if (r.type != ref::PUBLISH || r.qos == 0) continue;
@@ -166,7 +173,8 @@ struct X {
         vk_assert(r.len == first_tx_len[q], "retransmitted PUBLISH differs in length from the first transmission");
         for (uint32_t b = 1; b < r.len; b++) vk_assert(bytes[b] == first_tx[q][b], "retransmitted PUBLISH is not byte-identical to the first transmission");
         vk_assert((bytes[0] & ~8) == (first_tx[q][0] & ~8), "retransmitted PUBLISH differs in its flags beyond DUP");
-        vk_assert(r.dup == (tx_ok_before[q] > 0), "DUP must be set exactly when an earlier transmission had been written successfully");
+        if (!lost_tx[q]) vk_assert(r.dup == (tx_ok_before[q] > 0), "DUP must be set exactly when an earlier transmission had been written successfully");
+        else if (tx_ok_before[q] > 0) vk_assert(r.dup, "DUP must be set when an earlier transmission had been written successfully");
         vk_reach("retransmitted");
       }
       // "written successfully" is the client's view: a transmission the broker got early counts once the client's write completes
@@ -231,7 +239,8 @@ static void stamp_requests(X* x, int from) {
 
 extern "C" void h_pub(void) {
   X* x = new X(); W& w = x->w;
-  w.start(); w.connect_ok();
+  static const uint8_t rm_props[3] = {0x21, 0, VK_RM};
+  w.start(); w.connect_ok(false, VK_RM ? rm_props : nullptr, VK_RM ? 3 : 0);
   int stamped = w.npk;
   for (int step = 0; step < VK_STEPS; step++) {
     uint32_t ev = vk_choose(6);
@@ -251,7 +260,7 @@ extern "C" void h_pub(void) {
   // fault-free suffix: the broker stays reachable and answers everything; every accepted request must complete
   for (int round = 0; round < 10; round++) {
     bool progress = false;
-    if (!w.connected() && !vk::pending_write()) { int b = w.npk; if (w.establish()) { w.send_connack(false, 0, nullptr, 0); w.feed_all(); vk::drain(); x->on_new_packets(b); progress = true; } }
+    if (!w.connected() && !vk::pending_write()) { int b = w.npk; if (w.establish()) { static const uint8_t rmp[3] = {0x21, 0, VK_RM}; w.send_connack(true, 0, VK_RM ? rmp : nullptr, VK_RM ? 3 : 0); w.feed_all(); vk::drain(); x->on_new_packets(b); progress = true; } }
     if (auto* s = vk::pending_write()) { int b = w.npk; w.finish_write(s, s->wdata.size(), {}); vk::drain(); x->on_new_packets(b); progress = true; }
     uint16_t pid = 0; uint8_t t;
     while ((t = x->owed(pid)) != 0 && w.connected()) { x->log_ack(t, pid, 0, true, true); w.ack(t, pid, 0, 1); x->deliver(0); progress = true; }
